@@ -18,7 +18,7 @@ BUDGET = {"quick": 1200, "thorough": 160000}
 SHARDS = {"quick": 8, "thorough": 16}
 RULE = (
     "case = a tree of nested contexts over one Aspire instance: enable_pool(pool, close_pool, parallelize_prior) and "
-    "auto_checkpoint(path, every, save_config, save_flow), with bodies made of no-ops, fit() and sample_posterior(importance) "
+    "auto_checkpoint(path in {f0, f1}, every, save_config, save_flow) - so nested contexts may target the same file with other options -, with bodies made of no-ops, fit() and sample_posterior(importance) "
     "calls, and an exception injected at one position (before/after each nested context, in the innermost body, or inside a "
     "sampling call through the likelihood) or nowhere. (1) exhaustive, on every run: all chains of depth 1..3 over 8 context "
     "variants x every injection position x {no-op body, sampling body} ('exhaustive' refers to this part); (2) generated: trees of depth <= 4 "
@@ -38,10 +38,11 @@ VARIANTS = [
     {"ctx": "pool", "close_pool": False, "parallelize_prior": False},
     {"ctx": "pool", "close_pool": True, "parallelize_prior": True},
     {"ctx": "pool", "close_pool": False, "parallelize_prior": True},
-    {"ctx": "auto", "every": 1, "save_config": True, "save_flow": True},
-    {"ctx": "auto", "every": 3, "save_config": False, "save_flow": True},
-    {"ctx": "auto", "every": 2, "save_config": True, "save_flow": False},
-    {"ctx": "auto", "every": 1, "save_config": False, "save_flow": False},
+    # two file names only: nested contexts (and repeated ones) may target the same file with different options
+    {"ctx": "auto", "every": 1, "save_config": True, "save_flow": True, "path": 0},
+    {"ctx": "auto", "every": 3, "save_config": False, "save_flow": True, "path": 1},
+    {"ctx": "auto", "every": 2, "save_config": True, "save_flow": False, "path": 0},
+    {"ctx": "auto", "every": 1, "save_config": False, "save_flow": False, "path": 1},
 ]
 
 
@@ -150,7 +151,7 @@ class Runner:
             pool = FakePool()
             cm = a.enable_pool(pool, close_pool=node["close_pool"], parallelize_prior=node["parallelize_prior"])
         else:
-            cm = a.auto_checkpoint(os.path.join(self.tmp, f"f{depth}_{self.counter}.h5"), every=node["every"],
+            cm = a.auto_checkpoint(os.path.join(self.tmp, f"f{node.get('path', 0)}.h5"), every=node["every"],
                                    save_config=node["save_config"], save_flow=node["save_flow"])
         try:
             with cm:
